@@ -53,7 +53,7 @@ type Output struct {
 	Errors      []string     `json:"errors,omitempty"`
 }
 
-var loadPatterns = []string{"./cashu/...", "./crypto/...", "./mint", "./mint/storage/...", "./mint/lightning", "./wallet", "./wallet/client", "./wallet/storage"}
+var loadPatterns = []string{"./cashu/...", "./crypto/...", "./mint", "./mint/manager", "./mint/storage/...", "./mint/lightning", "./wallet", "./wallet/client", "./wallet/storage"}
 
 func main() {
 	repo := flag.String("repo", "/repo", "repository root")
